@@ -3,6 +3,8 @@ package checks
 import (
 	"context"
 	"fmt"
+	"io"
+	"net/http"
 	"sort"
 	"strings"
 	"time"
@@ -18,6 +20,7 @@ import (
 	"verif/engine/chk"
 	"verif/engine/h1"
 	"verif/engine/pipe"
+	"verif/engine/rig"
 	"verif/engine/vrt"
 )
 
@@ -437,5 +440,58 @@ func init() {
 			}
 		}
 		r.Counters["scenarios"] = int64(len(scs))
+		// ---- the real probe function against in-memory targets: only a complete, successful response
+		// yields an estimate (every offset at which the body can break off) --------------------------------
+		if c.Part == 0 {
+			c20RealProbes(c, info, hashes, sd)
+		}
 	})
+}
+
+func c20RealProbes(c *chk.Ctx, info *prom.ConfigInfo, hashes map[string]uint64, sd map[string]*discovery.SDTargets) {
+	r := c.R
+	body := rig.Payload(12)
+	for _, gzipOn := range []bool{false, true} {
+		wire := body
+		if gzipOn {
+			wire = gz(body)
+		}
+		for cut := 0; cut <= len(wire); cut++ {
+			sm := kscrape.New(true, h1Quiet())
+			_ = sm.ApplyConfig(info)
+			net := &rig.Targets{}
+			cut := cut
+			net.Serve = func(req *http.Request) rig.Answer {
+				return rig.Answer{Gzip: gzipOn, BodyReader: func() io.ReadCloser {
+					if cut == len(wire) {
+						return &chunkReader{data: wire}
+					}
+					return &breakReader{data: wire, cut: cut, chunk: 50}
+				}}
+			}
+			sm.GetJob("A").Cli = &http.Client{Transport: net}
+			e := explore.New(sm, prometheus.NewRegistry(), h1Quiet())
+			_ = e.ApplyConfig(info)
+			e.UpdateTargets(map[string][]*discovery.SDTargets{"A": {sd["t1"]}})
+			err := e.VerifProbeOnce(hashes["t1"])
+			st := e.Get(hashes["t1"])
+			r.States++
+			r.Transitions++
+			cs := map[string]interface{}{"real_probe": true, "gzip": gzipOn, "body_breaks_at": cut, "wire_len": len(wire)}
+			complete := cut == len(wire)
+			if complete {
+				if err != nil || st == nil || string(st.Health) != "up" || st.Series != 12 || st.TotalSeries != 12 {
+					r.Violate("C20:real-probe:success-not-recorded", "estimate-from-success", fmt.Sprintf("complete probe response (12 samples): err=%v status=%+v", err, st), int64(cut),
+						&c20Replay{Property: "C20", Clause: "estimate-from-success", Detail: chk.JSON(cs)})
+				}
+			} else if err == nil || (st != nil && string(st.Health) == "up") {
+				h, se := "", int64(-1)
+				if st != nil {
+					h, se = string(st.Health), st.Series
+				}
+				r.Violate("C20:real-probe:truncated-counts-as-success", "estimate-from-success", fmt.Sprintf("probe response breaking off at byte %d of %d (gzip=%v) is recorded as a success: err=%v health=%s series=%d", cut, len(wire), gzipOn, err, h, se), int64(cut),
+					&c20Replay{Property: "C20", Clause: "estimate-from-success", Detail: chk.JSON(cs)})
+			}
+		}
+	}
 }
